@@ -349,6 +349,37 @@ def check(run):
     for (p, a, r) in zip(xplan, xans, xreqs):
         if p[1] == "x64" and p[2] == "all-default" and a.startswith("panic"):
             run.violation("failing-input", {"kind": "macro-panic", "line": r[3:40]}, f"the macro panics on `{r[3:]}`", {"stream": "plug", "input": [r], "impl": [a]})
+    # ---- x86 mode and VEX.W / XOP.W: where W is part of the opcode (FMA, vpermq, ...) the form exists in 32-bit mode (llvm-mc -triple=i386
+    # assembles it) and must not be refused as "64 bit operand size"; register-only instantiations, so that no operand asks for 64 bits
+    try:
+        import x64sweep
+        cand = [e for e in x64sweep.table() if x64sweep.flag(e, "WITH_REXW") and (x64sweep.flag(e, "VEX_OP") or x64sweep.flag(e, "XOP_OP"))]
+        probes = []
+        for e in cand:
+            ins = x64sweep.instances(e, "x86")
+            if ins and all((o.kind == "reg" and o.fam == "xmm") or o.kind == "imm" for o in ins[0].ops):
+                probes.append((e["m"], ins[0].line))
+        pans = plug([f"cl ; .arch x86 ; {l}" for (_, l) in probes])
+        refused = {}
+        for (m, l), a in zip(probes, pans):
+            if a.startswith("reject") and "64 bit operand size" in a and x64sweep.assemble("x86", l) is not None:
+                refused.setdefault(m, l)
+        stats["x86_vex_w_probes"] = len(probes)
+        stats["x86_vex_w_refused_but_valid"] = len(refused)
+        recorded = set()
+        for k in run.known.get("open", []):
+            if k.get("property") == "C20" and k.get("match", {}).get("group") == "x86-refuses-vex-w-opcode-forms":
+                recorded |= set(k.get("mnemonics", []))
+        if set(refused) & recorded:
+            m0 = sorted(set(refused) & recorded)[0]
+            run.violation("failing-input", {"kind": "x86-refuses-valid-form", "group": "x86-refuses-vex-w-opcode-forms"},
+                          f"`.arch x86 ; {refused[m0]}` is refused (64 bit operand size) although the form exists in 32-bit mode", {"stream": "plug", "input": [f"cl ; .arch x86 ; {refused[m0]}"]})
+        for m in sorted(set(refused) - recorded)[:4]:
+            run.violation("failing-input", {"kind": "x86-refuses-valid-form", "mnemonic": m},
+                          f"`.arch x86 ; {refused[m]}` is refused (\"Does not support 64 bit operand size in 32-bit mode\") although the form exists in 32-bit mode: "
+                          f"llvm-mc -triple=i386 assembles it, VEX.W is part of its opcode", {"stream": "plug", "input": [f"cl ; .arch x86 ; {refused[m]}"]})
+    except Exception as e:       # noqa
+        run.violation("broken-correspondence", {"kind": "x86-vex-w-probe"}, f"the x86 VEX.W probe could not run: {e}", found_input=False)
     # ---- the known shadowed form(s), re-confirmed on the implementation
     if actual_shadowed is not None:
         for (m, ix) in actual_shadowed:
